@@ -1,6 +1,6 @@
 (* C03 -- Parser is total: well-formed datagrams accepted, malformed rejected, no crash. *)
 From CoapV Require Import Base Header Packet WireSpec Encode Decode PacketOps Suite01
-  proofs.PWire proofs.PEnc proofs.PDec proofs.P01.
+  proofs.PWire proofs.PEnc proofs.PDec proofs.P01 proofs.P03b proofs.P01c.
 
 (* The index-based decoder model (every buf[i], every slice, every typed addition is a
    potential Panic) agrees with the independent reference parser of WireSpec.v, for every
@@ -40,6 +40,70 @@ Theorem C03_reference_accepts_only_wire_images : forall bs m, bytes_wf bs ->
                (tail = [] /\ a_payload m = [] \/ tail = 255 :: a_payload m) /\ a_code m < 256.
 Proof. exact ref_parse_shape. Qed.
 Print Assumptions C03_reference_accepts_only_wire_images.
+
+(* the model passes the suite-30 oracle (no panic; accepted exactly with the reference's fields; rejected where the
+   reference must reject) on every byte string and policy *)
+Theorem C03_model_passes_oracle : forall s pol bs, rd_case20 s = Some (pol, bs) -> bytes_wf bs -> verdict30 s (run20 s) = true.
+Proof. exact model_passes_oracle30. Qed.
+Print Assumptions C03_model_passes_oracle.
+
+(* ---- the reject classes the property names, one theorem each (every decoder policy) ---- *)
+Theorem C03_rejects_short : forall pol bs, bytes_wf bs -> len bs < 4 -> exists e, from_bytes pol bs = Err e.
+Proof. exact rejects_short. Qed.
+Print Assumptions C03_rejects_short.
+Theorem C03_rejects_token_length : forall pol b0 c m1 m2 r, bytes_wf (b0 :: c :: m1 :: m2 :: r) -> 8 < b0 mod 16 ->
+  exists e, from_bytes pol (b0 :: c :: m1 :: m2 :: r) = Err e.
+Proof. exact rejects_token_length. Qed.
+Print Assumptions C03_rejects_token_length.
+Theorem C03_rejects_truncated_token : forall pol b0 c m1 m2 r, bytes_wf (b0 :: c :: m1 :: m2 :: r) -> len r < b0 mod 16 ->
+  exists e, from_bytes pol (b0 :: c :: m1 :: m2 :: r) = Err e.
+Proof. exact rejects_truncated_token. Qed.
+Print Assumptions C03_rejects_truncated_token.
+(* after ANY valid option prefix l: a header byte b (not the marker) from which no option can be read *)
+Theorem C03_rejects_bad_option : forall pol b0 c m1 m2 tok l b rest,
+  bytes_wf (b0 :: c :: m1 :: m2 :: tok ++ wire_opts 0 l ++ b :: rest) ->
+  b0 mod 16 = len tok -> len tok <= 8 -> ascending 0 l -> b <> 255 ->
+  ref_one (last_num 0 l) b rest = None ->
+  exists e, from_bytes pol (b0 :: c :: m1 :: m2 :: tok ++ wire_opts 0 l ++ b :: rest) = Err e.
+Proof. exact rejects_bad_option. Qed.
+Print Assumptions C03_rejects_bad_option.
+(* ... where "no option can be read" is exactly: nibble 15 in the delta or in the length, a truncated extended delta,
+   a truncated extended length, an option number above 65535, or a truncated value *)
+Theorem C03_bad_option_classes : forall num b rest, b < 256 -> ref_one num b rest = None ->
+  b / 16 = 15 \/ b mod 16 = 15 \/
+  ((b / 16 = 13 /\ rest = []) \/ (b / 16 = 14 /\ len rest < 2)) \/
+  (exists d r1, ref_ext (b / 16) rest = Some (d, r1) /\
+     (((b mod 16 = 13 /\ r1 = []) \/ (b mod 16 = 14 /\ len r1 < 2)) \/ 65535 < num + d \/
+      exists L r2, ref_ext (b mod 16) r1 = Some (L, r2) /\ len r2 < L)).
+Proof. exact ref_one_none_classes. Qed.
+Print Assumptions C03_bad_option_classes.
+Theorem C03_class_delta_nibble_15 : forall num b rest, b / 16 = 15 -> ref_one num b rest = None.
+Proof. exact class_delta_nibble_15. Qed.
+Print Assumptions C03_class_delta_nibble_15.
+Theorem C03_class_length_nibble_15 : forall num b rest, b mod 16 = 15 -> ref_one num b rest = None.
+Proof. exact class_length_nibble_15. Qed.
+Print Assumptions C03_class_length_nibble_15.
+Theorem C03_class_truncated_delta : forall num b rest, (b / 16 = 13 /\ rest = []) \/ (b / 16 = 14 /\ len rest < 2) -> ref_one num b rest = None.
+Proof. exact class_truncated_delta. Qed.
+Print Assumptions C03_class_truncated_delta.
+Theorem C03_class_truncated_length : forall num b rest d r1, ref_ext (b / 16) rest = Some (d, r1) ->
+  (b mod 16 = 13 /\ r1 = []) \/ (b mod 16 = 14 /\ len r1 < 2) -> ref_one num b rest = None.
+Proof. exact class_truncated_length. Qed.
+Print Assumptions C03_class_truncated_length.
+Theorem C03_class_number_overflow : forall num b rest d r1, ref_ext (b / 16) rest = Some (d, r1) -> 65535 < num + d -> ref_one num b rest = None.
+Proof. exact class_number_overflow. Qed.
+Print Assumptions C03_class_number_overflow.
+Theorem C03_class_truncated_value : forall num b rest d r1 L r2, ref_ext (b / 16) rest = Some (d, r1) -> ref_ext (b mod 16) r1 = Some (L, r2) ->
+  len r2 < L -> ref_one num b rest = None.
+Proof. exact class_truncated_value. Qed.
+Print Assumptions C03_class_truncated_value.
+
+(* non-vacuity: after Uri-Path "a" (option 11) a header byte 0xE0 with one byte following is a truncated extended delta *)
+Example C03_reject_example :
+  let l := [(11, [97])] in
+  ascending 0 l /\ ref_one (last_num 0 l) 224 [1] = None /\
+  (exists e, from_bytes lenient ([64; 1; 0; 1] ++ wire_opts 0 l ++ [224; 1]) = Err e).
+Proof. cbv zeta. split; [cbn [ascending]; repeat split; try (vm_compute; congruence); repeat (constructor; [vm_compute; reflexivity|]); constructor|]. split; [reflexivity|]. vm_compute. eexists. reflexivity. Qed.
 
 Example C03_example :
   ref_parse [64; 1; 0; 1; 224; 255; 255] = MustReject /\ ref_parse [73; 1; 0; 1] = MustReject /\
